@@ -183,7 +183,66 @@ func flipInstances(cfg Cfg) (r, u *plenc.Plenc, err error) {
 	return r, u, nil
 }
 
+// a codec registered after the instance has already looked the type up (a lookup, then the
+// registration for exactly that key, then the next use) is the one in use from then on, as on an
+// instance that registered first
+func lateRegistrations(c *Ctx) {
+	for _, cfg := range protoCfgs {
+		for _, tag := range []string{"", "x"} {
+			early, _, err := flipInstances(cfg)
+			late := newInstance(cfg)
+			if err != nil {
+				return
+			}
+			v := Flip("late registration")
+			// the lookups that come first on the late instance
+			if tag == "" {
+				late.CodecForType(tFlip)
+				late.Marshal(nil, &v)
+			} else {
+				str, _ := late.CodecForType(reflect.TypeOf(""))
+				late.RegisterCodecWithTag(tFlip, "x", str)
+				late.CodecForTypeWithTag(tFlip, "x")
+			}
+			str, err := late.CodecForType(reflect.TypeOf(""))
+			if err != nil {
+				return
+			}
+			if tag == "" {
+				late.CodecForType(tFlip) // the most recent lookup is exactly the key about to be registered
+				late.RegisterCodec(tFlip, stringXform(str, 1))
+			} else {
+				late.CodecForTypeWithTag(tFlip, "x")
+				late.RegisterCodecWithTag(tFlip, "x", stringXform(str, 2))
+			}
+			c1, e1 := early.CodecForTypeWithTag(tFlip, tag)
+			c2, e2 := late.CodecForTypeWithTag(tFlip, tag)
+			desc := fmt.Sprintf("late registration cfg=%s tag=%q", cfg, tag)
+			if e1 != nil || e2 != nil {
+				c.native = append(c.native, NativeViolation{Case: desc, What: fmt.Sprint(e1, e2), Class: "registered-codec-position"})
+				continue
+			}
+			b1 := c1.Append(nil, unsafe.Pointer(&v), nil)
+			b2 := c2.Append(nil, unsafe.Pointer(&v), nil)
+			if string(b1) != string(b2) {
+				c.native = append(c.native, NativeViolation{Case: desc, Class: "registered-codec-position",
+					What: fmt.Sprintf("the codec registered after an earlier lookup of the same (type, tag) is not the one in use: it writes %x, an instance that registered first writes %x", b2, b1)})
+			}
+			if tag == "" {
+				m1, _ := early.Marshal(nil, &v)
+				m2, _ := late.Marshal(nil, &v)
+				if string(m1) != string(m2) {
+					c.native = append(c.native, NativeViolation{Case: desc, Class: "registered-codec-position",
+						What: fmt.Sprintf("Marshal after a late registration gives %x, an instance that registered first gives %x", m2, m1)})
+				}
+			}
+			c.count("late_registrations")
+		}
+	}
+}
+
 func runC17Positions(c *Ctx) {
+	lateRegistrations(c)
 	vg := &ValGen{r: c.rng}
 	types := []reflect.Type{reflect.TypeOf(FlipPos{}), reflect.TypeOf(FlipInner{}), tFlip, tNeg,
 		reflect.SliceOf(tFlip), reflect.MapOf(tFlip, tNeg), reflect.MapOf(tNeg, tFlip), reflect.PointerTo(tFlip),
